@@ -4242,6 +4242,21 @@ impl Connection {
             key_phase: self.key_phase,
             idle_timeout: self.idle_timeout,
             app_limited: self.app_limited,
+            timers_armed: Timer::VALUES
+                .iter()
+                .filter(|&&t| self.timers.get(t).is_some())
+                .map(|&t| match t {
+                    Timer::LossDetection => "LossDetection",
+                    Timer::Idle => "Idle",
+                    Timer::Close => "Close",
+                    Timer::KeyDiscard => "KeyDiscard",
+                    Timer::PathValidation => "PathValidation",
+                    Timer::KeepAlive => "KeepAlive",
+                    Timer::Pacing => "Pacing",
+                    Timer::PushNewCid => "PushNewCid",
+                    Timer::MaxAckDelay => "MaxAckDelay",
+                })
+                .collect(),
             streams: self.streams.verif_probe(),
         }
     }
